@@ -56,6 +56,8 @@ def lattice_check(ctx, gen, judge, harness, libs, rule, nontrivial, assumptions,
     cov = {"evaluations": nobs, "distinct_nontrivial": nt, "rule": rule, "samples": cases[:3] + cases[-2:],
            "exhaustive": True, "rejected_observations": len(bad),
            "gen_module": gen, "judge_module": judge}
+    if level == "model_checking":
+        cov["traces_validated_against_impl"] = nobs
     if describe:
         cov.update(describe(cases))
     return finish(ctx, level, cov, assumptions)
